@@ -643,7 +643,7 @@ func c07Codes(r *eng.Run) []*c07Sys {
 func init() {
 	checks["C07"] = eng.Check{
 		Hist:        true,
-		Rule:        "explicit-state BFS to closure (state = block order + per-block instruction order) on every single-block code of <=3 (thorough 4) instructions over a 14-word alphabet built around the dependency rules, every (quick: a third of the) single-block code of 2..3 synthetic instructions from the 17-instruction alphabet of C06 (multi-store, multi-write, multi-space effects; byte lengths 2, 4 and 6) and 4 multi-block codes (branches, gaps, mid-code entry, blocks of different sizes); menu in every state: Block.Move(i,j) for all i,j in [-1,n] of every block, Code.Move(i,j) for all i,j in [-1,nb]; successor = fresh real code + replay of the shortest path + the operation. Oracles: admission iff positions valid and target within the bounds reported before the move; rejected => full snapshot unchanged; accepted => model rotation; per state: own bounds, contiguous addresses, indices, Block.Address/Code.Address lookups incl. begin-1/mid/end, every dependency edge (hook) ordered; equal orders reached by different histories must have equal snapshots. Second pass per code: a depth-3 (thorough 4) DFS tour over accepted, rejected and undo moves on ONE long-lived instance (never rebuilt) with the same oracles after every operation, so that state hidden from the snapshot (caches) accumulated over a history is exercised. Non-trivial = code with at least 2 reachable states.",
+		Rule:        "explicit-state BFS to closure (state = block order + per-block instruction order) on every single-block code of <=3 (thorough 4) instructions over a 14-word alphabet built around the dependency rules, every (quick: a third of the) single-block code of 2..3 synthetic instructions from the 21-instruction alphabet of C06 (multi-store, multi-write, multi-space effects; byte lengths 2, 4 and 6) and 4 multi-block codes (branches, gaps, mid-code entry, blocks of different sizes); menu in every state: Block.Move(i,j) for all i,j in [-1,n] of every block, Code.Move(i,j) for all i,j in [-1,nb]; successor = fresh real code + replay of the shortest path + the operation. Oracles: admission iff positions valid and target within the bounds reported before the move; rejected => full snapshot unchanged; accepted => model rotation; per state: own bounds, contiguous addresses, indices, Block.Address/Code.Address lookups incl. begin-1/mid/end, every dependency edge (hook) ordered; equal orders reached by different histories must have equal snapshots. Second pass per code: a depth-3 (thorough 4) DFS tour over accepted, rejected and undo moves on ONE long-lived instance (never rebuilt) with the same oracles after every operation, so that state hidden from the snapshot (caches) accumulated over a history is exercised. Non-trivial = code with at least 2 reachable states.",
 		Assumptions: []string{"dependency edges read through the add-only hook deps.VerifEdges"},
 		Run: func(r *eng.Run) {
 			codes := c07Codes(r)
